@@ -620,23 +620,23 @@ theorem parseBsHeader_rendered (f : Bool) (ch : Chomp) (ind : Nat) (ex : Bool) (
 /-- A block-scalar header (with or without a trailing comment) after an indicator. -/
 theorem parseAfter_bs (f g col pn : Nat) (cOk sSame : Bool) (folded : Bool) (ch : Chomp) (ind : Nat) (ex : Bool)
     (h1 : 1 ≤ ind) (h9 : ind ≤ 9) (T : Str) (hT : TrailOk T) (ls : List Line) :
-    parseAfter (f + 1) (spaces (g + 1) ++ (if folded then '>' else '|') :: ((if ex then natDigits 10 ind else []) ++ chompChar ch) ++ T)
+    parseAfter (f + 1) (spaces g ++ (if folded then '>' else '|') :: ((if ex then natDigits 10 ind else []) ++ chompChar ch) ++ T)
         col pn cOk sSame ls
       = (readBlockScalar ⟨folded, ch, if ex then some ind else none⟩ pn ls).map fun (s, r) => (.scalar false s, r) := by
   have hh := parseBsHeader_rendered folded ch ind ex h1 h9 T hT
   cases folded with
   | false =>
-    have hds : dropSpaces (spaces (g + 1) ++ '|' :: ((if ex then natDigits 10 ind else []) ++ chompChar ch) ++ T)
+    have hds : dropSpaces (spaces g ++ '|' :: ((if ex then natDigits 10 ind else []) ++ chompChar ch) ++ T)
         = '|' :: ((if ex then natDigits 10 ind else []) ++ chompChar ch ++ T) := by
-      have := dropSpaces_spaces (g + 1) '|' (((if ex then natDigits 10 ind else []) ++ chompChar ch) ++ T) (by decide)
+      have := dropSpaces_spaces g '|' (((if ex then natDigits 10 ind else []) ++ chompChar ch) ++ T) (by decide)
       simpa [List.append_assoc] using this
     rw [parseAfter]
     simp only [Bool.false_eq_true, if_false, hds, List.head?_cons, show (some '|' == some '\t') = false by decide,
       List.isEmpty_cons, show (some '|' == some '#') = false by decide, Bool.false_and, Bool.or_self, hh]
   | true =>
-    have hds : dropSpaces (spaces (g + 1) ++ '>' :: ((if ex then natDigits 10 ind else []) ++ chompChar ch) ++ T)
+    have hds : dropSpaces (spaces g ++ '>' :: ((if ex then natDigits 10 ind else []) ++ chompChar ch) ++ T)
         = '>' :: ((if ex then natDigits 10 ind else []) ++ chompChar ch ++ T) := by
-      have := dropSpaces_spaces (g + 1) '>' (((if ex then natDigits 10 ind else []) ++ chompChar ch) ++ T) (by decide)
+      have := dropSpaces_spaces g '>' (((if ex then natDigits 10 ind else []) ++ chompChar ch) ++ T) (by decide)
       simpa [List.append_assoc] using this
     rw [parseAfter]
     simp only [if_true, hds, List.head?_cons, show (some '>' == some '\t') = false by decide,
@@ -777,7 +777,7 @@ theorem after_literal (f g col pn e : Nat) (cOk sSame : Bool) (root : Bool) (s :
     (hpn : pn = if root then 0 else e + 1) (he : root = true → e = 0)
     (h : strOk false root s (.literal ch ind ex) = true) (rest : List Line) (ht : Tail e (ch == .keep) rest)
     (T : Str) (hT : TrailOk T) :
-    parseAfter (f + 1) (spaces (g + 1) ++ '|' :: ((if ex then natDigits 10 ind else []) ++ chompChar ch) ++ T) col pn cOk sSame
+    parseAfter (f + 1) (spaces g ++ '|' :: ((if ex then natDigits 10 ind else []) ++ chompChar ch) ++ T) col pn cOk sSame
         (bsLines (pn + ind - 1) (blockBodyLines false [] ch s) ++ rest)
       = .ok (.scalar false s, rest.dropWhile blankL) := by
   simp only [strOk, Bool.not_false, Bool.true_and, Bool.and_eq_true, decide_eq_true_eq] at h
@@ -1824,36 +1824,93 @@ theorem folded_lines_ok (folds : List Nat) (ch : Chomp) (s : Str)
     subst this
     exact ⟨Or.inl rfl, rfl⟩
 
-/-- A folded block scalar after its indicator (not at the document root). -/
-theorem after_folded (f g col pn e : Nat) (cOk sSame : Bool) (s : Str) (ch : Chomp) (ind : Nat) (ex : Bool) (folds : List Nat)
-    (hpn : pn = e + 1)
-    (h : strOk false false s (.folded ch ind ex folds) = true) (rest : List Line) (ht : Tail e (ch == .keep) rest)
+theorem goF_newlines (folds : List Nat) : ∀ (s' : Str) (n t : Nat), goF folds n s' = newlines t → s'.all (· == '\n') = true := by
+  intro s'
+  induction s' with
+  | nil => intros; rfl
+  | cons c r ih =>
+    intro n t h
+    cases t with
+    | zero => simp [goF, newlines] at h
+    | succ t =>
+      simp only [goF, newlines, List.replicate_succ, List.cons.injEq] at h
+      have hc : c = '\n' := by
+        by_cases hf : folds.contains n = true
+        · simp only [hf, if_true] at h; exact absurd h.1 (by decide)
+        · simp only [hf, Bool.false_eq_true, if_false] at h; exact h.1
+      simp only [List.all_cons, hc, beq_self_eq_true, Bool.true_and]
+      exact ih (n + 1) t h.2
+
+/-- A folded scalar with content has a non-empty body line. -/
+theorem folded_has_content (folds : List Nat) (ch : Chomp) (s : Str)
+    (hch : chompOk ch s = true) (hlines : (splitNl s).all bsLineOk = true)
+    (hsp : (splitNl s).all (fun l => l.head? != some ' ') = true) (hhead : s.head? ≠ some '\n')
+    (hf : folds.all (foldOk s) = true) (hany : s.any (· != '\n') = true) :
+    ∃ l ∈ blockBodyLines true folds ch s, l ≠ [] := by
+  obtain ⟨core, t, tl, H, hdec, hbody, hcore, hshape⟩ := folded_shape folds ch s hch hlines hsp hhead hf
+  rcases hshape with rfl | ⟨c0, core', rfl, hbn, hbs, hbt, hbm⟩
+  · exfalso
+    simp only [List.nil_append] at hdec
+    have hall := goF_newlines folds _ 0 t hdec
+    obtain ⟨l, hl, hne⟩ := any_base ch s hch hany
+    cases l with
+    | nil => exact hne rfl
+    | cons c r =>
+      obtain ⟨h1, h2⟩ := mem_of_mem_splitNl _ _ hl c (List.mem_cons_self ..)
+      have := List.all_eq_true.mp hall c h1
+      simp at this; exact h2 this
+  · have hX : foldBreaks false (c0 :: core') = c0 :: foldBreaks false core' := by
+      have q1 : (c0 == '\n') = false := by simp [hbn]
+      have q2 : (c0 == '\u0001') = false := by
+        have : c0 ≠ '\u0001' := hbm
+        simp [this]
+      simp [foldBreaks, q1, q2]
+    obtain ⟨l0, ls, e1, e2⟩ := splitNl_cons_other c0 (foldBreaks false core') hbn
+    refine ⟨c0 :: l0, ?_, by simp⟩
+    rw [hbody, splitNl_append_newlines, hX, e2]
+    exact List.mem_append_left _ (List.mem_cons_self ..)
+
+/-- A folded block scalar after its indicator. -/
+theorem after_folded (f g col pn e : Nat) (cOk sSame : Bool) (root : Bool) (s : Str) (ch : Chomp) (ind : Nat) (ex : Bool)
+    (folds : List Nat) (hpn : pn = if root then 0 else e + 1) (he : root = true → e = 0)
+    (h : strOk false root s (.folded ch ind ex folds) = true) (rest : List Line) (ht : Tail e (ch == .keep) rest)
     (T : Str) (hT : TrailOk T) :
-    parseAfter (f + 1) (spaces (g + 1) ++ '>' :: ((if ex then natDigits 10 ind else []) ++ chompChar ch) ++ T) col pn cOk sSame
+    parseAfter (f + 1) (spaces g ++ '>' :: ((if ex then natDigits 10 ind else []) ++ chompChar ch) ++ T) col pn cOk sSame
         (bsLines (pn + ind - 1) (blockBodyLines true folds ch s) ++ rest)
       = .ok (.scalar false s, rest.dropWhile blankL) := by
-  simp only [strOk, Bool.not_false, Bool.true_and, Bool.and_eq_true, decide_eq_true_eq, Bool.false_eq_true, if_false,
-    bne_iff_ne, ne_eq] at h
+  simp only [strOk, Bool.not_false, Bool.true_and, Bool.and_eq_true, decide_eq_true_eq, bne_iff_ne, ne_eq] at h
   obtain ⟨⟨⟨⟨⟨⟨⟨⟨⟨hind, h9⟩, hlines⟩, hch⟩, hex⟩, hroot⟩, hsp⟩, hhead⟩, hf⟩, _⟩ := h
-  have hpa := parseAfter_bs f g col pn cOk sSame true ch ind ex hind h9 T hT
+  have h1 : 1 ≤ ind := by cases root <;> simp at hind <;> omega
+  have hpa := parseAfter_bs f g col pn cOk sSame true ch ind ex h1 h9 T hT
     (bsLines (pn + ind - 1) (blockBodyLines true folds ch s) ++ rest)
   simp only [if_true] at hpa
   rw [hpa]
   have hlk := folded_lines_ok folds ch s hch hlines hsp hhead hf
+  have hfirst : ∀ l, (blockBodyLines true folds ch s).find? (fun l => !l.isEmpty) = some l → l.head? ≠ some ' ' := by
+    intro l hl
+    have hm := List.mem_of_find?_eq_some hl
+    rcases (hlk l hm).1 with h0 | ⟨c, r, rfl, hc⟩
+    · subst h0; simp
+    · simpa using hc
+  have hlt : e < pn + ind - 1 := by
+    cases root with
+    | true => have := he rfl; simp at hpn hind; omega
+    | false => simp at hpn hind; omega
   have hside : (∃ d, (if ex then some ind else none) = some d ∧ pn + d - 1 = pn + ind - 1) ∨
       ((if ex then some ind else none) = none ∧ pn ≤ pn + ind - 1 ∧ (e < pn ∨ ∃ l ∈ blockBodyLines true folds ch s, l ≠ []) ∧
         ∀ l, (blockBodyLines true folds ch s).find? (fun l => !l.isEmpty) = some l → l.head? ≠ some ' ') := by
     cases ex with
     | true => exact Or.inl ⟨ind, rfl, rfl⟩
     | false =>
-      refine Or.inr ⟨rfl, by omega, Or.inl (by omega), ?_⟩
-      intro l hl
-      have hm := List.mem_of_find?_eq_some hl
-      rcases (hlk l hm).1 with h0 | ⟨c, r, rfl, hc⟩
-      · subst h0; simp
-      · simpa using hc
+      refine Or.inr ⟨rfl, by omega, ?_, hfirst⟩
+      cases root with
+      | false => left; simp at hpn; omega
+      | true =>
+        right
+        simp only [Bool.not_true, Bool.false_or, Bool.and_eq_true] at hroot
+        exact folded_has_content folds ch s hch hlines hsp hhead hf hroot.2
   obtain ⟨j, hr, hj⟩ := readBs ⟨true, ch, if ex then some ind else none⟩ pn e (pn + ind - 1) (blockBodyLines true folds ch s) rest
-    (fun l hl => bodyOk_of_headOk l (hlk l hl).1) ht (by omega) hside
+    (fun l hl => bodyOk_of_headOk l (hlk l hl).1) ht hlt hside
   rw [hr]
   simp only [if_true, Except.map]
   rw [folded_roundtrip folds ch s j hch hlines hsp hhead hf hj]
